@@ -21,6 +21,12 @@ for d in sorted(os.listdir(sd)):
     first = [r for r in runs if r["pass"] == (passes[0] if passes else 0)]
     caught_first = any(r["caught"] for r in first)
     caught_any = any(r["caught"] for r in runs)
+    if m.get("superseded_by_fix"):
+        rows.append("| %s | `%s` | %s | n/a | n/a: no longer breaks the property on the repaired tree (fix %s) | %s |" % (
+            d, m["files_changed"][0], m["summary"].replace("\n", " ").replace("|", "/")[:230], m["superseded_by_fix"]["commit"], notes.get(d, {}).get("what", "")))
+        stats.setdefault(rnd, {"n": 0, "first": 0, "final": 0, "void": 0})
+        stats[rnd]["void"] = stats[rnd].get("void", 0) + 1
+        continue
     st = stats.setdefault(rnd, {"n": 0, "first": 0, "final": 0})
     st["n"] += 1; st["first"] += caught_first; st["final"] += caught_any
     catchers = []
@@ -77,7 +83,8 @@ text was read first and the gap was obvious) or after a measured miss.
 | seed | file | change (agent's summary) | caught in first pass | caught by (first signature per check) | strengthening |
 |---|---|---|---|---|---|
 """
-res = "\n".join("* round %d: %d changes, %d caught by the first measured pass, %d caught now" % (r, s["n"], s["first"], s["final"]) for r, s in sorted(stats.items()))
+res = "\n".join("* round %d: %d changes, %d caught by the first measured pass, %d caught now" % (r, s["n"], s["first"], s["final"]) +
+                (" (+%d that no longer breaks its property since a later `fix:` commit)" % s["void"] if s.get("void") else "") for r, s in sorted(stats.items()))
 open(os.path.join(sd, "README.md"), "w").write(head % res + "\n".join(rows) + """
 
 Own mutants (`/verif/mutants/*.patch`, one line each, written with knowledge of the checks) are run by
